@@ -33,11 +33,16 @@ def _match_value(pat, val):
 
 
 def load_known(pid):
-    if not os.path.exists(KNOWN):
-        return []
-    with open(KNOWN) as f:
-        data = json.load(f)
-    return [e for e in data.get("findings", []) if e.get("property") == pid and e.get("status") == "known"]
+    out = []
+    files = [KNOWN] if os.path.exists(KNOWN) else []
+    d = os.path.join(ROOT, "known_findings.d")
+    if os.path.isdir(d):
+        files += [os.path.join(d, f) for f in sorted(os.listdir(d)) if f.endswith(".json")]
+    for fn in files:
+        with open(fn) as f:
+            data = json.load(f)
+        out += [e for e in data.get("findings", []) if e.get("property") == pid and e.get("status") == "known"]
+    return out
 
 
 class Machinery(Exception):
